@@ -291,6 +291,40 @@ def handle (j : Json) : Json :=
               incorporateAll (emptyPools ty) (reorder order r'))
           | _, _ => err "bad-args"
         | _, _ => err "bad-args"
+      else if op == "topo" then
+        match x.getObjVal? "spec", x.getObjVal? "elems" with
+        | .ok spec, .ok (.arr rows) =>
+          let elems := rows.toList.mapM (fun r =>
+            match r with
+            | .arr #[.str node, .bool st, c, l] => do
+              let cd ← detSpec c
+              let ld ← detSpec l
+              pure (node, st, cd, ld)
+            | _ => none)
+          let fams := do
+            let fs ← (spec.getObjVal? "families").toOption
+            let fc ← pspecs (← (fs.getObjVal? "CAPACITY").toOption)
+            let fl ← pspecs (← (fs.getObjVal? "LABEL").toOption)
+            let did ← (spec.getObjValAs? String "delegation").toOption
+            pure (fc, fl, did)
+          match elems, fams with
+          | some els, some (fc, fl, did) =>
+            reply (fun (ws : List (DType × List (String × JVal))) =>
+                Json.arr (ws.map (fun r => Json.arr #[.str (tyName r.1),
+                  .arr ((r.2.mergeSort (fun a b => decide (a.1 ≤ b.1))).map (fun e => Json.arr #[.str e.1, toWire e.2])).toArray])).toArray) (do
+              let capPools ← buildFamily .cap fc
+              let labPools ← buildFamily .lab fl
+              let es ← els.mapM (fun (e : String × Bool × Option (DType × JVal) × Option (DType × JVal)) => do
+                let c ← match e.2.2.1 with
+                  | none => pure none
+                  | some (k, j) => (mkD k j).map some
+                let l ← match e.2.2.2 with
+                  | none => pure none
+                  | some (k, j) => (mkD k j).map some
+                pure ({ node := e.1, stitch := e.2.1, caps := c, labs := l } : Elem CDet))
+              singleDelegation dOps did es labPools capPools)
+          | _, _ => err "bad-args"
+        | _, _ => err "bad-args"
       else if op == "ann" then
         match x.getObjVal? "fam", x.getObjVal? "dels" with
         | .ok f, .ok (.arr nodes) =>
